@@ -64,6 +64,15 @@ func prepareHistory(w *world, shape int) {
 		}
 		w.f.budget, w.f.forceSite = 0, ""
 	}
+	if shape == 6 { // older revisions pruned by the history limit: 4:superseded 5:uninstalled (kept) — numbering with a gap
+		for k := 0; k < 4; k++ {
+			up := NewUpgrade(w.config())
+			up.Namespace, up.MaxHistory = "default", 2
+			if _, err := up.Run(relName, mkChart(k%2, historyHooks), map[string]interface{}{}); err != nil {
+				vFail("setup/upgrade")
+			}
+		}
+	}
 	if shape == 5 { // 1:superseded 2:uninstalled (kept)
 		up := NewUpgrade(w.config())
 		up.Namespace = "default"
@@ -71,7 +80,7 @@ func prepareHistory(w *world, shape int) {
 			vFail("setup/upgrade")
 		}
 	}
-	if shape == 3 || shape == 5 {
+	if shape == 3 || shape == 5 || shape == 6 {
 		un := NewUninstall(w.config())
 		un.KeepHistory = true
 		if _, err := un.Run(relName); err != nil {
